@@ -40,10 +40,12 @@ def units(tier):
       fns=[ALIASES["entryexit"]], backend=os.environ.get("C14_BE", "kissat"), mode="ABS", defines=["CXX2C_ABS_ARITH"])
     U("lemma.perm_intersects", "h_lemma_perm_intersects", clause="intersects(box, ray, ip): cyclic relabelling of the axes leaves the answer unchanged",
       fns=[ALIASES["intersects_ip"]], backend=os.environ.get("C14_BE", "kissat"), mode="ABS", defines=["CXX2C_ABS_ARITH"])
+    # every reported point lies in the closed box (IEEE, all finite inputs): cvc5 exceeded 25 min, kissat needs ~4 min
+    U("lemma.ip_in_box", "h_lemma_ip_in_box", clause="when intersects(box, ray, ip) is true, ip lies in the closed box - for every finite box, origin and direction (zero, denormal or huge components included), IEEE arithmetic",
+      fns=[ALIASES["intersects_ip"]], backend="kissat", timeout=2400)
     if os.environ.get("C14_INBOX"):
-        # experimental (not registered): IEEE, full-width; cvc5 exceeded 25 min - kissat attempt
-        U("lemma.ip_in_box", "h_lemma_ip_in_box", clause="when intersects(box, ray, ip) is true, ip lies in the closed box (IEEE)", fns=[ALIASES["intersects_ip"]], backend=os.environ["C14_INBOX"], timeout=6000)
-        U("lemma.entryexit_in_box", "h_lemma_entryexit_in_box", clause="when findEntryAndExitPoints is true, entry and exit lie in the closed box (IEEE)", fns=[ALIASES["entryexit"]], backend=os.environ["C14_INBOX"], timeout=6000)
+        # experimental (not registered): entry / exit points in the box, for unit directions and coordinates below 1e37
+        U("lemma.entryexit_in_box", "h_lemma_entryexit_in_box", clause="when findEntryAndExitPoints is true, entry and exit lie in the closed box (IEEE)", fns=[ALIASES["entryexit"]], backend=os.environ["C14_INBOX"], timeout=6000, defines=["C14_SPAN"])
     # lemma.ip_in_box / lemma.entryexit_in_box (reported points lie in the closed box): cvc5 exceeds 25 min on the IEEE formula - not claimed
     return us
 
@@ -53,7 +55,8 @@ def extra_coverage(units, tier):
 
 
 NOT_COVERED = [
-    "'every reported point lies in the box': attempted (harnesses h_lemma_ip_in_box / h_lemma_entryexit_in_box kept), cvc5 time-out at 25 min; needs NaN-freedom of the clamped quotients, so mode ABS cannot decide it",
+    "'every reported point lies in the box' for findEntryAndExitPoints: entry / exit stay unset (true is returned) for a zero or very short direction and for boxes reaching +-FLT_MAX (no finite face crossing can be computed) - "
+    "outside the documented domain (unit direction); with unit direction and |coordinates| <= 1e37 the obligation did not finish in 50 min (harness h_lemma_entryexit_in_box kept); the intersects(box, ray, ip) form IS proved",
     "'true exactly when some pos + t*dir, t >= 0, lies in the box': real-number geometry against rounded quotients - beyond the installed back ends",
     "points on the surface / on the ray to within rounding; mirror symmetry (dir >= 0 vs dir < 0 branches) - only the agreement of the three per-axis blocks with each other is proved",
 ]
